@@ -340,6 +340,48 @@ pub fn failure_shapes(rng: &mut Rng) -> Vec<Shape> {
         p.label("dup");
         p.push(Ins::ret());
     }));
+    v.push(mk("duplicate-label-adjacent", &|p| {
+        p.label("again");
+        p.label("again");
+        p.push(Ins::addi(A0, A0, 1));
+        exit(p);
+    }));
+    v.push(mk("duplicate-label-at-end-of-file", &|p| {
+        exit(p);
+        p.label("tail");
+        p.label("tail");
+    }));
+    v.push(mk("duplicate-data-label", &|p| {
+        p.push(Ins::La { rd: 5, label: "table".into() });
+        p.push(Ins::mv(A0, 5));
+        exit(p);
+        p.lines.push(Line::SecData);
+        p.label("table");
+        p.lines.push(Line::Data(Data::Word(vec![1, 2, 3])));
+        p.label("count");
+        p.lines.push(Line::Data(Data::Word(vec![3])));
+        p.label("table");
+        p.lines.push(Line::Data(Data::Word(vec![4, 5, 6])));
+    }));
+    v.push(mk("duplicate-data-label-before-code", &|p| {
+        p.lines.insert(0, Line::Data(Data::Word(vec![7])));
+        p.lines.insert(0, Line::Label("table".into()));
+        p.lines.insert(0, Line::Data(Data::Space(8)));
+        p.lines.insert(0, Line::Label("table".into()));
+        p.lines.insert(0, Line::SecData);
+        let at = p.lines.iter().position(|l| matches!(l, Line::Label(x) if x == "main")).unwrap_or(0);
+        p.lines.insert(at, Line::SecText);
+        exit(p);
+    }));
+    v.push(mk("data-label-equals-code-label", &|p| {
+        p.push(Ins::call("both"));
+        exit(p);
+        p.label("both");
+        p.push(Ins::ret());
+        p.lines.push(Line::SecData);
+        p.label("both");
+        p.lines.push(Line::Data(Data::Word(vec![1])));
+    }));
     // labels that no instruction follows
     v.push(mk("jump-to-label-at-end-of-file", &|p| {
         p.push(Ins::Branch { c: Cond::Eq, rs1: A0, rs2: ZERO, label: "the_end".into() });
